@@ -49,6 +49,12 @@ def generate(tier, seed):
         # other sources fitted before the planted one in the same fit() call (the planted source's result must not depend on them)
         c['decoys'] = [dict(model=rng.choice(pkg['names']), av0=rng.dyadic(0.0, 20.0, 8), sc0=rng.dyadic(-2.0, 2.0, 10), dindex=rng.random())
                        for _ in range(rng.choice([0, 1, 2]))]
+        if c['fmt'] == 'v1' and k % 5 == 3 and len(pkg['par_order']) > 1:
+            # history: one filter is convolved, the parameter table is rewritten with its rows in another order, then the other filters are convolved
+            po = list(pkg['par_order'])
+            while po == pkg['par_order']:
+                rng.shuffle(po)
+            c['reconv'] = po
         cases.append(c)
     return cases
 
@@ -63,7 +69,14 @@ def impl(case):
     names = [f['name'] for f in pkg['filters']]
     with tempfile.TemporaryDirectory() as d:
         (pkgcase.write_v1 if case['fmt'] == 'v1' else pkgcase.write_v2)(d, pkg, logd_step=case.get('logd_step', 0.02))
-        convolve_model_dir(d, pkgcase.make_filters(pkg))
+        if case.get('reconv'):
+            filts = pkgcase.make_filters(pkg)
+            convolve_model_dir(d, filts[:1])
+            os.remove(os.path.join(d, 'parameters.fits'))
+            pkgcase.write_params(d, dict(pkg, par_order=case['reconv']))
+            convolve_model_dir(d, filts[1:])
+        else:
+            convolve_model_dir(d, pkgcase.make_filters(pkg))
         conv = {n: pkgcase.read_convolved(d, n) for n in names}
         ext = fitcase.make_extinction(case['ext'])
         wavs = np.array([f['wav'] for f in pkg['filters']]) * u.micron       # the filters' own central wavelengths (not what the convolved files say)
@@ -71,9 +84,9 @@ def impl(case):
         d0s = []
 
         def synth(label, planted, av0, sc0, dindex):
-            mi = conv[names[0]]['names'].index(planted)
+            mi_ = {n: conv[n]['names'].index(planted) for n in names}      # row of the planted model in each file, by name
             if case['mode'] == '2d':
-                logf = np.array([np.log10(conv[n]['flux'][mi][0]) for n in names]) + av0 * ks - 2.0 * sc0
+                logf = np.array([np.log10(conv[n]['flux'][mi_[n]][0]) for n in names]) + av0 * ks - 2.0 * sc0
                 d0s.append(None)
             else:
                 d0r, d1r = case['drange']
@@ -85,7 +98,7 @@ def impl(case):
                 for j, n in enumerate(names):
                     aps = np.array(conv[n]['apertures'])
                     ap = min(theta[j] * d0 * 1000.0, aps.max())
-                    fl.append(np.interp(ap, aps, conv[n]['flux'][mi]) / d0 ** 2)
+                    fl.append(np.interp(ap, aps, conv[n]['flux'][mi_[n]]) / d0 ** 2)
                 logf = np.log10(np.array(fl)) + av0 * ks
             if case['flag'] == 1:
                 # the fitter reads linear (F, sigma) as the log-normal mean log10 F - (sigma/F)^2 / (2 ln 10) (C03); with a fixed distance grid that
@@ -157,7 +170,7 @@ def model_requests(case, im):
 
 def judge(case, im, mo):
     pkg = case['pkg']
-    tags = ['mode=' + case['mode'], 'fmt=' + case['fmt'], 'flag=%d' % case['flag'], 'rel=%g' % case['rel']]
+    tags = ['mode=' + case['mode'], 'fmt=' + case['fmt'], 'flag=%d' % case['flag'], 'rel=%g' % case['rel'], 'reconv=%s' % bool(case.get('reconv'))]
     if 'exc' in im:
         return dict(disagree=['implementation raised ' + im['msg']], fail=['raised: %s' % im['msg']], nontrivial=False, tags=tags + ['raised'])
     if not mo or isinstance(mo[0], tuple):
